@@ -229,6 +229,14 @@ func (m *Machine) feasible(t *sym.Term) bool {
 	if t.IsFalse() {
 		return false
 	}
+	if m.merge != nil {
+		// inside a merge scope the local decisions are part of the context
+		local := []*sym.Term{t}
+		for s := m.merge; s != nil; s = s.parent {
+			local = append(local, s.pc...)
+		}
+		return m.mergeFeasible(m.C.And(local...))
+	}
 	if m.model != nil && sym.Eval(t, m.model, m.modelMemo) == 1 {
 		m.CacheHits++
 		return true
@@ -1196,7 +1204,7 @@ func (m *Machine) doSelect(cases []selCase, blocking bool) (int, Value, bool) {
 // ---------------------------------------------------------------- mutex / waitgroup
 
 func (m *Machine) mutexLock(p *Value) {
-	if m.traceMutex[p] {
+	if m.traceMutex[p] || (m.traceAllMutex && len(m.traceChans) > 0) {
 		m.SyncTrace = append(m.SyncTrace, "L:"+m.mutexName(p))
 		return
 	}
@@ -1238,7 +1246,7 @@ func (m *Machine) mutexName(p *Value) string {
 }
 
 func (m *Machine) mutexUnlock(p *Value) {
-	if m.traceMutex[p] {
+	if m.traceMutex[p] || (m.traceAllMutex && len(m.traceChans) > 0) {
 		m.SyncTrace = append(m.SyncTrace, "U:"+m.mutexName(p))
 		return
 	}
